@@ -2,6 +2,7 @@ import Utv.Lemmas.C01Conv
 import Utv.Lemmas.C01Val
 import Utv.Lemmas.C01Loops
 import Utv.Lemmas.C01Data
+import Utv.Lemmas.C01Dec
 /-!
 C01 — parsed results always conform to the declared type and constraints.
 
@@ -78,13 +79,23 @@ def originNotDec : Option Ty → Bool
   | some (.plain (.cls b _)) => b != .decimal
   | _ => false
 
+/-- a `Decimal` rule in the order `validate_constraints` produces: bounds (`gt ge lt le`), then `decimal_places` (which
+completes the Decimal to the declared places), then validators that hand their input back.  A `regex` before
+`decimal_places` is the known finding `decimal-places-pads-after-regex`. -/
+def decShape (origin : Option Ty) (k : ArgsK) (vs : List (String × PyVal)) : Bool :=
+  (match origin with | some (.plain (.cls .decimal 0)) => true | _ => false) && k == .none &&
+  (match vs.dropWhile (fun cv => orderNames.contains cv.1) with
+   | (name, .int _) :: post => name == "decimal_places" && post.all (fun cv => strictPreservingNames.contains cv.1)
+   | _ => false)
+
 namespace OutsideProof
-/-- validator lists the proof does not follow: a `decimal_places` that rounds a Decimal (it hands back a padded value;
-the constraints checked before it are not re-established in Lean), `const` next to other validators or on a container
-with arguments (never produced by `validate_constraints`), unknown names -/
+/-- validator lists the proof does not follow: on a Decimal, a `decimal_places` that is preceded by anything but bounds
+(`regex` first: known finding) or has a non-int bound; `const` next to other validators or on a container with arguments
+(never produced by `validate_constraints`); unknown names -/
 def validators (origin : Option Ty) (k : ArgsK) (vs : List (String × PyVal)) : Bool :=
   !(vs.all (fun cv => preservingFor (originNotDec origin) cv.1) ||
-    (vs.length == 1 && vs.all (fun cv => cv.1 == "const") && k == .none))
+    (vs.length == 1 && vs.all (fun cv => cv.1 == "const") && k == .none) ||
+    decShape origin k vs)
 
 /-- shapes `resolve_args_parser` never produces -/
 def argsShape (origin : Option Ty) (k : ArgsK) (args : List Ty) : Bool :=
@@ -207,6 +218,27 @@ theorem isInstT_not_dec {r : V} {b : Base} {c : Nat} (h : isInstT r (.cls b c) =
     simp only [isInstT, V.cls?] at h
     cases b <;> simp at h hb
 
+theorem isInstT_decimal {r : V} (h : isInstT r (.cls .decimal 0) = true) : ∃ c d, r = .dec c d := by
+  cases r with
+  | dec c d => exact ⟨c, d, rfl⟩
+  | bytes k c bs => cases k <;> simp [isInstT, isInst, V.cls?, Base.sub, BytesK.base] at h
+  | seq k c xs => cases k <;> simp [isInstT, isInst, V.cls?, Base.sub, SeqK.base] at h
+  | _ => simp [isInstT, isInst, V.cls?, Base.sub] at h
+
+theorem mem_takeWhile_p {α} (p : α → Bool) : ∀ (l : List α) (x : α), x ∈ l.takeWhile p → p x = true := by
+  intro l
+  induction l with
+  | nil => intro x h; simp at h
+  | cons y ys ih =>
+    intro x h
+    simp only [List.takeWhile_cons] at h
+    split at h
+    · simp only [List.mem_cons] at h
+      rcases h with rfl | h
+      · assumption
+      · exact ih x h
+    · simp at h
+
 /-! ## the cases of the induction -/
 
 section Cases
@@ -307,7 +339,32 @@ theorem finish_conf (o : Opts) (hs : o.safe = true) (origin : Option Ty) (k : Ar
   unfold finish at h
   simp only [hic, Bool.false_eq_true, if_false] at h
   simp only [OutsideProof.validators, Bool.not_eq_false', Bool.or_eq_true, Bool.and_eq_true, beq_iff_eq] at hout
-  rcases hout with hpres | ⟨⟨hlen, hallc⟩, hk⟩
+  rcases hout with (hpres | ⟨⟨hlen, hallc⟩, hk⟩) | hdec
+  rotate_left 2
+  · -- a Decimal rule: bounds, `decimal_places`, preserving validators
+    simp only [decShape, Bool.and_eq_true, beq_iff_eq] at hdec
+    obtain ⟨⟨hor, hk⟩, hsplit⟩ := hdec
+    have horg : origin = some (.plain (.cls .decimal 0)) := by
+      split at hor
+      · rfl
+      · simp at hor
+    subst horg
+    have hsplit' := List.takeWhile_append_dropWhile (p := fun cv : String × PyVal => orderNames.contains cv.1) (l := vs)
+    split at hsplit
+    · rename_i name kk post hdw
+      simp only [Bool.and_eq_true, beq_iff_eq, List.all_eq_true] at hsplit
+      obtain ⟨hname, hpost⟩ := hsplit
+      subst hname
+      rw [hdw] at hsplit'
+      have hr1 : ∃ c d, r1 = V.dec c d :=
+        isInstT_decimal (by simpa [originConf, Conforms] using horigin)
+      rw [← hsplit'] at h ⊢
+      obtain ⟨⟨d', hd'⟩, hsat⟩ := validatePhase_decimal PP _ post kk r1 r
+        (fun cv hcv => by simpa using mem_takeWhile_p _ _ cv hcv)
+        (fun cv hcv => by simpa using hpost cv hcv) hr1 h
+      subst hd'
+      exact ⟨Or.inr hk, by simp [originConf, Conforms], hsat⟩
+    · simp at hsplit
   · -- preserving validators: the value is handed back
     have hnd : originNotDec origin = true → ∀ c d, r1 ≠ .dec c d := by
       intro hod
@@ -735,6 +792,39 @@ theorem C01_subclass_plain_witness :
   refine ⟨by rfl, ?_, by rfl⟩
   simp [Conforms, isInstT, V.cls?]
 
+/-- known finding `decimal-places-pads-after-regex`: `class T(Decimal, Rule): regex = r'\d\.\d'; decimal_places = 2` —
+`T(Decimal('1.5')) == Decimal('1.50')`, whose text no longer matches the regex (builtins: `str(Decimal)` and
+`re.fullmatch` as CPython answers for these two values) -/
+def PPre : Utv.Py.Prims :=
+  { PP0 with
+    decStr := fun d => if d == .fin false 15 (-1) then "1.5" else "1.50"
+    reFullmatch := fun _ s => some (s == "1.5") }
+
+def decT : Ty := .plain (.cls .decimal 0)
+def regexT : Ty := .rule (some decT) .none [] [("regex", .str "\\d\\.\\d"), ("decimal_places", .int 2)]
+
+theorem C01_decimal_places_regex_witness :
+    parse P0 PPre D0 2 {} regexT (.dec 0 (.fin false 15 (-1))) = .ok (.dec 0 (.fin false 150 (-2))) ∧
+    ¬ Conforms PPre D0 2 regexT (.dec 0 (.fin false 150 (-2))) ∧
+    OutsideProof.validators (some decT) .none [("regex", PyVal.str "\\d\\.\\d"), ("decimal_places", PyVal.int 2)] = true := by
+  refine ⟨by rfl, ?_, by rfl⟩
+  intro h
+  simp only [regexT, Conforms] at h
+  obtain ⟨_, h | ⟨_, hsat⟩⟩ := h
+  · simp [isNone] at h
+  · have h' := hsat ("regex", .str "\\d\\.\\d") (by simp)
+    have h'' : ∃ pv f, toPy (V.dec 0 (.fin false 150 (-2))) = some pv ∧ Utv.Rule.validatorOf "regex" = some f ∧
+        f PPre pv (.str "\\d\\.\\d") = .ok pv := by
+      simpa [Sat, isLaxName, laxNames] using h'
+    obtain ⟨pv, f, hpv, hf, hfa⟩ := h''
+    simp [toPy] at hpv
+    subst hpv
+    simp only [Utv.Rule.validatorOf, Option.some.injEq] at hf
+    subst hf
+    have : Utv.Gen.Constraints.regex PPre (.dec (.fin false 150 (-2))) (.str "\\d\\.\\d") = .error .valueError := by rfl
+    rw [this] at hfa
+    cases hfa
+
 /-- hence the statement without the `Clean` hypothesis does not hold -/
 theorem C01_full_statement_fails :
     ¬ ∀ (P : Prims) (_ : PrimsTyped P) (PP : Utv.Py.Prims) (D : DEnv) (fuel : Nat) (o : Opts) (T : Ty) (v r : V),
@@ -750,6 +840,14 @@ def listT : Ty := .rule (some (.plain (.cls .list 0))) .seq [posInt] [("max_leng
 example : ∃ (r : V), ({} : Opts).safe = true ∧ Clean D0 3 listT = true ∧
     parse P0 PP0 D0 3 {} listT (.seq .tuple 0 [.bool true, .int 0 5]) = .ok r ∧ r = .seq .list 0 [.int 0 1, .int 0 5] :=
   ⟨_, by rfl, by decide, by rfl, rfl⟩
+
+/-- non-vacuity for a Decimal rule with a bound, `decimal_places` and `max_digits` (`condecimal(ge=0, decimal_places=2,
+max_digits=5)`): `Decimal('1.5')` is completed to `Decimal('1.50')` and conforms -/
+def moneyT : Ty := .rule (some decT) .none [] [("ge", .int 0), ("decimal_places", .int 2), ("max_digits", .int 5)]
+
+example : ∃ (r : V), Clean D0 2 moneyT = true ∧
+    parse P0 PP0 D0 2 {} moneyT (.dec 0 (.fin false 15 (-1))) = .ok r ∧ r = .dec 0 (.fin false 150 (-2)) :=
+  ⟨_, by decide, by rfl, rfl⟩
 
 /-- non-vacuity for data classes: `class S(Schema): a: int; b: Optional[str] = None` from `{'a': True}` -/
 def D1 : DEnv := ⟨⟨[]⟩, [{ fields := [{ name := "a", ty := intT, required := true },
